@@ -482,6 +482,12 @@ class Bench:
         s.previous = cinco.IntField(default=12345)
         s.note = cinco.StringField(default="saved earlier")
         s(key_filename=os.path.join(self.root, "p0.key")).save(self.dest, fmt if fmt in REAL_FORMATS else "json")
+        if len(self.kinds) % 2 == 0:
+            # the destination is a symbolic link to the real file (current -> releases/v1): saving
+            # writes through it, and a failed save leaves link and file as they were
+            real = self.dest + ".real"
+            os.replace(self.dest, real)
+            os.symlink(real, self.dest)
 
     # ---- one save (+ load) ----
     def do_round(self, rd):
